@@ -17,6 +17,7 @@ use std::time::Instant;
 pub type GenFn = fn(seed: u64, run: u64, thorough: bool) -> Plan;
 pub type OracleFn = fn(plan: &Plan) -> Vec<Box<dyn Oracle>>;
 pub type AdversaryFn = fn(plan: &Plan) -> Option<Box<dyn Adversary>>;
+pub type CustomRunFn = fn(def: &CheckDef, fam: &Family, plan: &Plan, materialise: bool) -> Result<RunVerdict, String>;
 
 #[derive(Clone)]
 pub struct Family {
@@ -30,6 +31,8 @@ pub struct Family {
     /// The recorded adversary actions are only legal relative to this exact workload (packet
     /// numbering, timing): the minimiser must not remove application operations.
     pub keep_workload: bool,
+    /// Replaces the standard single execution (twin-run comparisons).
+    pub custom: Option<CustomRunFn>,
     /// one-line description for the evidence file
     pub what: &'static str,
 }
@@ -106,7 +109,15 @@ pub struct RunVerdict {
 /// Executes one plan with the family's oracles; a panic inside uflow becomes a violation of the
 /// running property (clause `panic`).
 pub fn run_plan(def: &CheckDef, fam: &Family, plan: &Plan, materialise: bool) -> Result<RunVerdict, String> {
-    let mut oracles = (fam.oracles)(plan);
+    if let Some(custom) = fam.custom {
+        return custom(def, fam, plan, materialise);
+    }
+    run_plan_with(def, fam, plan, materialise, (fam.oracles)(plan))
+}
+
+/// Standard execution with an explicit oracle set.
+pub fn run_plan_with(def: &CheckDef, fam: &Family, plan: &Plan, materialise: bool, oracles: Vec<Box<dyn Oracle>>) -> Result<RunVerdict, String> {
+    let mut oracles = oracles;
     let adv = mk_adversary(fam, plan);
     let opts = ExecOpts { materialise, ..Default::default() };
     let out = execute(plan, &mut oracles, opts, adv)?;
@@ -178,6 +189,7 @@ fn abbreviate(plan: &Plan) -> Value {
             EndpointKind::Client { cfg, .. } => json!({"client": {"active_timeout_ms": cfg.active_timeout_ms, "max_send_rate": cfg.max_send_rate, "max_receive_alloc": cfg.max_receive_alloc}}),
             EndpointKind::Server { cfg, max_total, max_active, .. } => json!({"server": {"max_total": max_total, "max_active": max_active, "active_timeout_ms": cfg.active_timeout_ms}}),
             EndpointKind::Raw => json!("raw"),
+            EndpointKind::Rate { max_send_rate } => json!({"rate_computer": {"max_send_rate": max_send_rate}}),
         }).collect::<Vec<_>>(),
         "op_counts": ops, "first_ops": first, "params": plan.params,
     })
